@@ -152,6 +152,25 @@ def _fault_child(case):
             else:
                 want = None
                 fn = lambda: vec.set_attr("knob", [10 * j + i for i in range(n)])
+            if faulting and case.get("pending"):
+                # issue the faulting call asynchronously and close() WITHOUT waiting for it: close() has to deal with the
+                # pending call itself (workers may or may not have answered yet: `settle` seconds are given)
+                import time as _time
+
+                if op == "reset":
+                    pend = lambda: vec.reset_async(seed=seed)
+                elif op == "step":
+                    aslist = [[int(actions[a][i]) for a in ref.envs[0].possible_agents] for i in range(n)]
+                    pend = lambda: vec.step_async(aslist)
+                else:
+                    pend = lambda: vec.call_async("ping", j)
+                k0, v0, _ = _guard(pend, CALL_BOUND_S)
+                if k0 != "returned":
+                    F.fail(f"{P}/async_issue_failed/{cmd}", f"{cmd}_async itself {k0}", **info)
+                _time.sleep(case.get("settle", 0.0))
+                tag = "with_failed_call_pending/" + _dominant(kinds)
+                F.label("close-with-pending-faulted-call")
+                break
             kind, val, dt = _guard(fn, bound)
             if not faulting:
                 # a fault-free prefix: everything must simply work and equal the reference
@@ -222,7 +241,8 @@ def run_fault(case, ctx):
     if r["status"] == "ok":
         res = r["result"]
         po.Findings.replay(res, ctx)
-        if res.get("delivered") is not None and res["delivered"] != sorted(f["inst"] for f in case["faults"]) and not res["findings"]:
+        if (res.get("delivered") is not None and res["delivered"] != sorted(f["inst"] for f in case["faults"]) and not res["findings"]
+                and not case.get("pending")):  # with a pending call close() may legitimately win the race against the fault
             raise HarnessError(f"fault was not delivered: case={case} delivered={res['delivered']}")
         if r["leftover"]:
             ctx.label("processes-left-at-case-end(reaped)")
@@ -250,6 +270,14 @@ def fault_grid(tier):
                         cases.append({"n": N_ENVS, "cmd": cmd, "at": at,
                                       "faults": [{"inst": w1, "kind": k1, "exc": EXCS[(ci + at + w1) % len(EXCS)]},
                                                  {"inst": w2, "kind": k2, "exc": EXCS[(ci + at + w2 + 2) % len(EXCS)]}]})
+    # close() while the faulted call is still pending (never waited for)
+    for ci, cmd in enumerate(("reset", "step", "call")):
+        for at in range(2):
+            for w in range(N_ENVS):
+                for kind in ("raise", "sleep", "kill"):
+                    for settle in (0.0, 0.6):
+                        cases.append({"n": N_ENVS, "cmd": cmd, "at": at, "pending": True, "settle": settle,
+                                      "faults": [{"inst": w, "kind": kind, "exc": EXCS[(ci + at + w) % len(EXCS)]}]})
     for idx, c in enumerate(cases):
         c["obs"] = pz.KINDS[idx % 4]
         c["dt"] = idx % 3
